@@ -409,3 +409,137 @@ Section MergeC.
         * lia.
   Qed.
 End MergeC.
+
+(* ------------------------------------------------------------------ all pipelines *)
+
+Section Final.
+  Variable id : N.
+
+  (* calls of the closures named id in the eager evaluation of the prefix N0: every stage calls its
+     closure at most once per item of its input; cross iterates its second list once per row *)
+  Fixpoint obs_bound (N0 : nat) (p : pipe) : nat :=
+    match p with
+    | PNumbers _ | PList _ => O
+    | PStage s p' => (obs_bound N0 p' + occ_stage id s * length (fst (spec_pipe N0 p')))%nat
+    | PApp a b => (obs_bound N0 a + obs_bound N0 b)%nat
+    | PCross ci _ a b =>
+        (obs_bound N0 a + length (fst (spec_pipe N0 a)) *
+           (obs_bound N0 b + b2n (N.eqb ci id) * length (fst (spec_pipe N0 b))))%nat
+    | PMerge ci _ a b =>
+        (obs_bound N0 a + obs_bound N0 b +
+           b2n (N.eqb ci id) * (length (fst (spec_pipe N0 a)) + length (fst (spec_pipe N0 b))))%nat
+    | PThrough _ p' => obs_bound N0 p'
+    end.
+
+  Lemma pipe_yc_all : forall p N0, ycB id p (init p) (spec_pipe N0 p) (obs_bound N0 p).
+  Proof.
+    induction p as [n|l|s p IH|p1 IH1 p2 IH2|ci g p1 IH1 p2 IH2|ci less p1 IH1 p2 IH2|cx p IH]; intros N0;
+      cbn [init spec_pipe obs_bound].
+    - exists O. split; [|lia]. destruct (Z.ltb_spec (Z.of_nat N0) n); cbn [fst snd].
+      + apply numbers_open_c. lia.
+      + apply numbers_closed_c. lia.
+    - exists O. split; [|lia]. destruct (Nat.ltb_spec N0 (length l)); cbn [fst snd].
+      + apply list_open_c.
+      + apply list_closed_c.
+    - destruct (IH N0) as [c [Hy Hc]]. destruct (spec_pipe N0 p) as [items st]. cbn [fst snd] in *.
+      rewrite <- sfun_init. eapply ycB_mono; [apply stage_c; exact Hy|]. nia.
+    - destruct (IH1 N0) as [c1 [Hy1 Hc1]]. destruct (IH2 N0) as [c2 [Hy2 Hc2]].
+      destruct (spec_pipe N0 p1) as [i1 st1]. destruct (spec_pipe N0 p2) as [i2 st2]. cbn [fst snd] in *.
+      destruct (app_left_c id p1 p2 (init p1) (init p2) i1 st1 c1 Hy1 i2 st2 c2 (fun _ => Hy2)) as [c [Hy Hc]].
+      exists c. split; [|lia]. destruct st1; exact Hy.
+    - destruct (IH1 N0) as [c1 [Hy1 Hc1]]. destruct (IH2 N0) as [c2 [Hy2 Hc2]].
+      pose proof (pipe_yields_all p2 N0) as Hp2.
+      destruct (spec_pipe N0 p1) as [la sta]. destruct (spec_pipe N0 p2) as [lb stb].
+      unfold yieldsP in Hp2. cbn [fst snd] in *.
+      rewrite <- (crossF_spec g p2 lb stb Hp2 la sta).
+      eapply ycB_mono; [apply (cross_outer_c id ci g p1 p2 lb stb c2 Hy2 (init p1) la sta c1 Hy1)|]. nia.
+    - destruct (IH1 N0) as [c1 [Hy1 Hc1]]. destruct (IH2 N0) as [c2 [Hy2 Hc2]].
+      destruct (spec_pipe N0 p1) as [la sta]. destruct (spec_pipe N0 p2) as [lb stb]. cbn [fst snd] in *.
+      rewrite spec_merge_mergeF by lia.
+      eapply ycB_mono;
+        [apply (merge_main_c id ci less p1 p2 (init p1) la sta c1 Hy1 None (init p2) lb stb c2 Hy2)|].
+      cbn [ob app]. nia.
+    - destruct (IH N0) as [c [Hy Hc]]. exists c. split; [apply through_c; exact Hy|exact Hc].
+  Qed.
+
+  (* outcome and closure counts together *)
+  Lemma run_refines_spec_count : forall p t N0 o,
+    spec_term t (spec_pipe N0 p) = Some o ->
+    exists F, forall fuel, (F <= fuel)%nat -> exists l n, run fuel t p = (l, o, n) /\
+      (count id l <= obs_bound N0 p + occ_term id t * length (fst (spec_pipe N0 p)))%nat.
+  Proof.
+    intros p t N0 o Hs. destruct (term_none_dec' t) as [E|E].
+    - subst t. destruct (spec_pipe N0 p). cbn in Hs. inversion Hs; subst. exists O. intros fuel _.
+      eexists. eexists. split; [reflexivity|]. cbn. lia.
+    - destruct (pipe_yc_all p N0) as [c [Hy Hc]]. destruct (spec_pipe N0 p) as [items st]. cbn [fst snd] in *.
+      rewrite <- (tdec_spec t items st E) in Hs.
+      destruct (loop_decided_count id p t (init p) items st c Hy tst0 o Hs) as [F HF].
+      exists F. intros fuel Hf. destruct (HF fuel Hf) as [l [n [El Hl]]]. exists l, n.
+      split; [destruct t; try congruence; exact El|lia].
+  Qed.
+
+  (* ... and that bound is the one c08_is evaluates (spec_bound, which allows one call more) *)
+  Definition sumf (L : list (N * nat)) : nat :=
+    fold_right (fun (e : N * nat) acc => if N.eqb (fst e) id then (snd e + acc)%nat else acc) O L.
+
+  Lemma sumf_app : forall a b, sumf (a ++ b) = (sumf a + sumf b)%nat.
+  Proof.
+    induction a as [|e a IH]; intros b; cbn [app sumf fold_right]; [reflexivity|].
+    fold (sumf (a ++ b)). fold (sumf a). rewrite IH. destruct (N.eqb (fst e) id); lia.
+  Qed.
+
+  Lemma sumf_scale : forall m L, sumf (map (fun e : N * nat => (fst e, (snd e * m)%nat)) L) = (sumf L * m)%nat.
+  Proof.
+    intros m. induction L as [|e L IH]; cbn [map sumf fold_right fst snd]; [reflexivity|].
+    fold (sumf (map (fun e : N * nat => (fst e, (snd e * m)%nat)) L)). fold (sumf L). rewrite IH.
+    destruct (N.eqb (fst e) id); lia.
+  Qed.
+
+  Lemma sumf_ids_stage : forall s n, sumf (map (fun i => (i, n)) (ids_stage s)) = (occ_stage id s * n)%nat.
+  Proof.
+    intros s n. destruct s; cbn [ids_stage map sumf fold_right fst snd occ_stage];
+      repeat match goal with |- context [N.eqb ?a id] => destruct (N.eqb a id) end; cbn [b2n]; lia.
+  Qed.
+
+  Lemma sumf_ids_term : forall t n, sumf (map (fun i => (i, n)) (ids_term t)) = (occ_term id t * n)%nat.
+  Proof.
+    intros t n. destruct t; cbn [ids_term map sumf fold_right fst snd occ_term];
+      repeat match goal with |- context [N.eqb ?a id] => destruct (N.eqb a id) end; cbn [b2n]; lia.
+  Qed.
+
+  Lemma obs_bound_inputs : forall p N0, (obs_bound N0 p <= sumf (spec_inputs N0 p))%nat.
+  Proof.
+    induction p as [n|l|s p IH|p1 IH1 p2 IH2|ci g p1 IH1 p2 IH2|ci less p1 IH1 p2 IH2|cx p IH]; intros N0;
+      cbn [obs_bound spec_inputs].
+    - cbn. lia.
+    - cbn. lia.
+    - rewrite sumf_app, sumf_ids_stage. specialize (IH N0). lia.
+    - rewrite sumf_app. specialize (IH1 N0). specialize (IH2 N0). lia.
+    - specialize (IH1 N0). specialize (IH2 N0).
+      cbn [sumf fold_right fst snd]. fold (sumf (spec_inputs N0 p1 ++
+        map (fun e : N * nat => (fst e, (snd e * Nat.max 1 (length (fst (spec_pipe N0 p1))))%nat)) (spec_inputs N0 p2))).
+      rewrite sumf_app, sumf_scale.
+      destruct (N.eqb ci id); cbn [b2n]; nia.
+    - specialize (IH1 N0). specialize (IH2 N0).
+      cbn [sumf fold_right fst snd]. fold (sumf (spec_inputs N0 p1 ++ spec_inputs N0 p2)).
+      rewrite sumf_app. destruct (N.eqb ci id); cbn [b2n]; nia.
+    - apply IH.
+  Qed.
+
+  Lemma run_refines_spec_bound : forall p t N0 o,
+    spec_term t (spec_pipe N0 p) = Some o ->
+    exists F, forall fuel, (F <= fuel)%nat -> exists l n, run fuel t p = (l, o, n) /\
+      (count id l <= spec_bound N0 t p id)%nat.
+  Proof.
+    intros p t N0 o Hs. destruct (run_refines_spec_count p t N0 o Hs) as [F HF]. exists F.
+    intros fuel Hf. destruct (HF fuel Hf) as [l [n [E Hc]]]. exists l, n. split; [exact E|].
+    unfold spec_bound. fold (sumf (spec_inputs N0 p ++ map (fun i => (i, length (fst (spec_pipe N0 p)))) (ids_term t))).
+    rewrite sumf_app, sumf_ids_term. pose proof (obs_bound_inputs p N0). lia.
+  Qed.
+End Final.
+
+Lemma run_refines_spec_need_bound : forall id B p t N0 o,
+  spec_need B t p = Some (N0, o) ->
+  exists F, forall fuel, (F <= fuel)%nat -> exists l n, run fuel t p = (l, o, n) /\
+    (count id l <= spec_bound N0 t p id)%nat.
+Proof. intros id B p t N0 o H. apply run_refines_spec_bound. eapply spec_need_sound. exact H. Qed.
